@@ -461,7 +461,7 @@ theorem textExtract_error (c : Chunk) (e : Err) (h : textExtract c = .error e) :
     · cases h; exact ⟨rfl, hne, by omega⟩
   · cases h
 
-theorem chunkEquiv_refl (c : Chunk) : ChunkEquiv c c := ⟨rfl, fun _ => ⟨rfl, rfl⟩⟩
+private theorem chunkEquiv_refl (c : Chunk) : ChunkEquiv c c := ⟨rfl, fun _ => ⟨rfl, rfl⟩⟩
 
 theorem textExtract_equiv (c d : Chunk) (h : ChunkEquiv c d) :
     match textExtract c, textExtract d with
